@@ -51,6 +51,7 @@ func (e *Exec) extraInt(st *State, key string) int {
 }
 
 func (e *Exec) deadlock(st *State, what string) Outcome {
+	st.mayFail = true
 	e.Res.Violations = append(e.Res.Violations, Violation{Msg: "deadlock: " + what, Inputs: e.InputsUnder(st, e.pathModel(st)), PathTag: strings.Join(st.Tags, ",")})
 	e.endPath(st, "deadlock")
 	return handled
@@ -233,6 +234,7 @@ func registerStubs(m map[string]Intrinsic) {
 		}
 		st.extra[k] = &TupleV{E: items}
 		if st.frameMon != nil && st.heap[ci.Args[0].(*Ptr).Obj].Epoch < st.frameMon.epoch {
+			st.mayFail = true
 			e.Res.Violations = append(e.Res.Violations, Violation{Msg: "frame[" + st.frameMon.label + "]: store into a pre-existing sync.Map", Inputs: e.InputsUnder(st, e.pathModel(st))})
 		}
 		return val(nil)
